@@ -72,15 +72,25 @@ HistoryIndependent == [][\A r \in Requests : Req(r) => out' = Receive(Defaults, 
 (* per-request limit ("unlimited" = -1), copy error / reset                *)
 Forwarded(size, limit) == IF limit # -1 /\ size > limit THEN limit + 1 ELSE size
 \* failAt: position at which reading the function response fails (-1: never); a failure behind the cut is never seen
-CopyClass(size, limit, failAt) ==
-    IF failAt >= 0 /\ failAt < Forwarded(size, limit) THEN "Truncated"
+\* stallAt: position at which the runtime stops sending without closing (-1: never): the copy is blocked reading
+\* until a reset interrupts it (the connection of the runtime is closed); the answer ends Truncated with
+\* everything read so far forwarded; a stall behind the cut is never seen either
+CopyClass(size, limit, failAt, stallAt) ==
+    IF stallAt >= 0 /\ stallAt < Forwarded(size, limit) THEN "Truncated"
+    ELSE IF failAt >= 0 /\ failAt < Forwarded(size, limit) THEN "Truncated"
     ELSE IF limit # -1 /\ size > limit THEN "Oversized"
     ELSE "Complete"
+Stalls(size, limit, stallAt) == stallAt >= 0 /\ stallAt < Forwarded(size, limit)
 
 \* enumeration of copy cases (each state is one test case for SendDirectInvokeResponse)
-CopyCases == [size : {0, 1, 99, 100, 101, 102, 5000}, limit : {100, -1}, failAt : {-1, 0, 50, 100, 101, 2500}, chunk : {1, 7, 64, 4096}]
-CopyInit == /\ \E k \in CopyCases : cc = [k EXCEPT !.failAt = IF k.failAt >= k.size THEN -1 ELSE k.failAt]
+CopyCases == [size : {0, 1, 99, 100, 101, 102, 5000}, limit : {100, -1}, failAt : {-1, 0, 50, 100, 101, 2500}, chunk : {1, 7, 64, 4096},
+              stallAt : {-1, 0, 50, 2500}]
+CopyInit == /\ \E k \in CopyCases :
+                 cc = [k EXCEPT !.failAt = IF k.failAt >= k.size \/ k.stallAt # -1 THEN -1 ELSE k.failAt,
+                                !.stallAt = IF k.stallAt >= k.size THEN -1 ELSE k.stallAt]
             /\ pkg = Defaults
-            /\ out = [class |-> CopyClass(cc.size, cc.limit, cc.failAt), forwarded |-> Forwarded(cc.size, cc.limit)]
+            /\ out = [class |-> CopyClass(cc.size, cc.limit, cc.failAt, cc.stallAt),
+                      forwarded |-> IF Stalls(cc.size, cc.limit, cc.stallAt) THEN cc.stallAt ELSE Forwarded(cc.size, cc.limit),
+                      reset |-> Stalls(cc.size, cc.limit, cc.stallAt)]
 CopySpec == CopyInit /\ [][UNCHANGED <<cc, pkg, out>>]_<<cc, pkg, out>>
 =============================================================================
